@@ -301,8 +301,12 @@ class LedgerCheck:
         worker = wk.Worker(name="W0", resources=self.mk_resources(cap), _logger=self.lg)
         m = MWorker(cap)
         pool = None
+        pools = None
         if use_pool:
             pool = wk.WorkerPool(name="P", workers=[worker], _logger=self.lg)
+            if rng.random() < 0.5:
+                # copies are then taken at the WorkerPools level (what the policies copy)
+                pools = wk.WorkerPools([pool])
         hist.append(("init", sorted((f"{n}:{i}", q) for (n, i), q in cap.items()), {k: s["req"] + [("batch", s["batch"])] for k, s in sspec.items()}, "pool" if use_pool else "worker"))
         kinds = set()
         copies = []  # (obj, model, label)
@@ -448,9 +452,17 @@ class LedgerCheck:
                             self.bad("refused_request_changed_state", f"{label}", hist)
                 elif op in ("copy", "deepcopy"):
                     hist.append((op,))
-                    src = pool if pool is not None else worker
+                    src = pools if pools is not None else (pool if pool is not None else worker)
                     c = copy.copy(src) if op == "copy" else copy.deepcopy(src)
-                    cw = c.workers[0] if pool is not None else c
+                    if pools is not None:
+                        cw = list(c.worker_pools)[0].workers[0]
+                        self.bump("copies_of_worker_pools")
+                        if op == "copy" and pool.is_full():
+                            self.bump("copies_of_saturated_worker_pools")
+                    else:
+                        cw = c.workers[0] if pool is not None else c
+                    if cw is worker:
+                        self.bad("copy_shares_worker", f"{label}: the {op} holds the original Worker object", hist)
                     cm = m.clone() if op == "copy" else MWorker(cap)
                     co = self.observe_worker(cw, cap, tasks, strategies)
                     if op == "copy":
@@ -459,7 +471,7 @@ class LedgerCheck:
                             batch_live = any(key[0] == "batch" for key in m.holders)
                             self.bad("copy_differs_from_original_with_batch" if batch_live else "copy_differs_from_original",
                                      f"{label}: differing getters {diff}", hist)
-                        if pool is not None and sorted(t.name for t in c.get_placed_tasks()) != sorted(t.name for t in pool.get_placed_tasks()):
+                        if pool is not None and sorted(t.name for t in c.get_placed_tasks()) != sorted(t.name for t in src.get_placed_tasks()):
                             self.bad("copy_differs_from_original", f"{label}: pool placed tasks differ", hist)
                     else:
                         self.expect_worker(cm, co, {k: s for k, s in sspec.items()}, hist, label + " (deepcopy must be empty/full)")
@@ -477,7 +489,18 @@ class LedgerCheck:
                     if any((key[0] == "task" and key[1] == t) or (key[0] == "batch" and t in cm.members[key]) for key in cm.holders):
                         continue
                     hist.append((op, cop, f"T{t}", k))
-                    if cm.feasible(req_of(sspec[k])) and cw.can_accomodate_strategy(strategies[k]):
+                    plain = [key for key in cm.holders if key[0] == "task"]
+                    if plain and rng.random() < 0.4:
+                        # remove a resident of the copy: the original must keep it
+                        key = rng.choice(plain)
+                        hist.append(("copy_remove", f"T{key[1]}"))
+                        cw.remove_task(self.ET.zero(), tasks[key[1]])
+                        cm.release(key)
+                        self.bump("removed_on_copy")
+                        for ci, ent in enumerate(copies):
+                            if ent[1] is cw:
+                                copies[ci] = (ent[0], ent[1], ent[2], ent[3], self.observe_worker(cw, cap, tasks, strategies))
+                    elif cm.feasible(req_of(sspec[k])) and cw.can_accomodate_strategy(strategies[k]):
                         try:
                             cw.place_task(tasks[t], strategies[k])
                             cm.admit(("task", t), req_of(sspec[k]), self.reported_task(cw, tasks[t]))
@@ -789,14 +812,15 @@ class LedgerCheck:
                 tot[k] = tot.get(k, 0) + v
         need = {"kind_place_ok": 500, "kind_place_refused": 500, "kind_remove": 500, "kind_remove_refused": 300,
                 "kind_copy": 500, "kind_deepcopy": 300, "kind_load": 300, "kind_evict": 200, "kind_mutate_copy": 200,
-                "kind_batch_emptied": 100, "e2e_idle_capacity_checks": 1000}
+                "kind_batch_emptied": 100, "e2e_idle_capacity_checks": 1000, "direct_place_task_calls": 1000,
+                "copies_of_worker_pools": 1000, "copies_of_saturated_worker_pools": 100, "removed_on_copy": 100}
         inconclusive = [f"{k} seen {tot.get(k, 0)} times (< {v})" for k, v in need.items() if tot.get(k, 0) < v]
         if tot.get("histories", 0) < (30000 if tier == "quick" else 1000000):
             inconclusive.append(f"only {tot.get('histories', 0)} histories")
         cov = {"evaluations": tot.get("histories", 0) + tot.get("e2e_worlds", 0),
                "distinct_nontrivial": sum(r["nontrivial"] for r in results),
                "rule": "random operation histories (2-12 ops: place / place-in-batch / remove / illegal remove / load / evict / copy / "
-                       "deepcopy / mutate-a-copy, then drain) on a Worker or single-worker WorkerPool over 1-3 resource names x 1-3 "
+                       "deepcopy / mutate-a-copy (place or remove on it), then drain) on a Worker, a single-worker WorkerPool or a WorkerPools around it (copies taken at that level) over 1-3 resource names x 1-3 "
                        "instances x quantity 0-3 with 'any' and specific-id requests, plus every sequence of length <= 4 over a 9-op "
                        "alphabet on the vector A:x=2,A:y=1; after every step all public getters are compared with an independent "
                        "occupancy model; non-trivial = a history with >= 3 different operation outcomes (hash of the history)",
